@@ -466,6 +466,11 @@ async fn one_run(seed: u64, idx: u64, pool: &crate::world::Pool, recv_side: bool
                 }
                 continue;
             }
+            // a retransmission: the very same packet once more (each copy is a received packet)
+            if !sentinel && r.chance(1, 8) {
+                expects.push(exp.clone());
+                wire.push(bytes.clone());
+            }
             expects.push(exp);
             wire.push(bytes);
         }
@@ -805,7 +810,7 @@ pub fn run_part(args: &Args, mon: &mut Mon, n: u64) -> &'static str {
         }
     });
     if recv_side {
-        "socket part: the real UdpScionSocket<MultiPathManager> (assembled as ScionStack::bind_with_config does, over an in-memory underlay; DefaultEchoHandler in 3/4 of the runs + the stack's ScmpErrorHandler, two extra error receivers next to the path manager) receives 5-90 injected packets per run in random order (datagrams with unique ids from three senders incl. IPv6 and 0-8000 B payloads, datagrams from a service address, too-short UDP, other protocols, all five SCMP error kinds, echo requests, other informational SCMP, truncated / unknown-type SCMP), closed by a sentinel datagram; the consumer mixes recv_from / recv_from_with_path / recv (connected third of the runs) with 4-9000 B buffers and cancels a quarter of the calls at their first suspension. Judged: datagrams exactly once, in order, right sender / length / prefix / path; every error at every receiver exactly once, in order, same message and path; exactly one faithful echo reply per request and no other packet sent."
+        "socket part: the real UdpScionSocket<MultiPathManager> (assembled as ScionStack::bind_with_config does, over an in-memory underlay; DefaultEchoHandler in 3/4 of the runs + the stack's ScmpErrorHandler, two extra error receivers next to the path manager) receives 5-90 injected packets per run in random order (datagrams with unique ids from three senders incl. IPv6 and 0-8000 B payloads, datagrams from a service address, too-short UDP, other protocols, all five SCMP error kinds, echo requests, other informational SCMP, truncated / unknown-type SCMP; one packet in eight injected twice in a row), closed by a sentinel datagram; the consumer mixes recv_from / recv_from_with_path / recv (connected third of the runs) with 4-9000 B buffers and cancels a quarter of the calls at their first suspension. Judged: datagrams exactly once, in order, right sender / length / prefix / path; every error at every receiver exactly once, in order, same message and path; exactly one faithful echo reply per request and no other packet sent."
     } else {
         "socket part: send_to on the real UdpScionSocket<MultiPathManager> (in-memory underlay, real manager task, lookup returning a random subset of the pool, policies none / deny-all / deny-interface / deny-AS / max-length) towards the looked-up AS, the local AS and an AS without paths (in half of the runs after 1-3 datagrams arrived over paths no lookup returned, whose reversed paths the socket hands to the manager's register_path), with underlay faults (WouldBlock x1-3, next hop unreachable, closed): every packet reaching the underlay is decoded by the reference (addresses, ports, payload, UDP length and checksum) and its path must be byte-identical to the data plane path of a looked-up path that the monitor's own policy evaluation admits; a failed send leaves nothing on the underlay, a send without admissible path fails."
     }
